@@ -766,6 +766,9 @@ def method(ip: Interp, recv, name, t: PyConst, args, kwargs, n):
         ip.oos(f'memo-table method {name}', n)
     if t.kind == 'listmethod':
         return list_method(ip, recv, name, args, n)
+    if t.kind == 'ufmethod':
+        fname, rs = t.name.split(':')
+        return ip.w.uf(f'{fname}__Int', z3.IntSort(), S.sort_of(rs))(recv.ident)
     if t.kind == 'opaquemethod':
         if t.name == 'NOOP':
             ip.w.assumptions.add(f'{recv.kind}.{name}: assumed to modify nothing visible to the parse state and not to raise')
